@@ -83,15 +83,37 @@ type File struct {
 	Name      string `json:"name"`    // x.proto
 	Package   string `json:"package"` // proto package
 	GoPackage string `json:"go_package,omitempty"`
-	// DepGoPackage: go_package option of the imported file when it is spelled differently ("" = like GoPackage)
-	DepGoPackage string     `json:"dep_go_package,omitempty"`
-	Getters      bool       `json:"getters,omitempty"` // goproto_getters_all
-	Enums        []*Enum    `json:"enums,omitempty"`
-	Messages     []*Message `json:"messages"`
+	// DepAltSpelling: the imported file spells the same Go package differently in its go_package option
+	// ("path" <-> "path;name"; see AltGoPackage)
+	DepAltSpelling bool       `json:"dep_alt_spelling,omitempty"`
+	Getters        bool       `json:"getters,omitempty"` // goproto_getters_all
+	Enums          []*Enum    `json:"enums,omitempty"`
+	Messages       []*Message `json:"messages"`
 	// CastTypes declared in the struct package: name -> underlying Go type.
 	CastTypes map[string]string `json:"cast_types,omitempty"`
 	// CustomTypes declared in the struct package: name -> underlying Go type.
 	CustomTypes map[string]string `json:"custom_types,omitempty"`
+}
+
+// AltGoPackage returns the other spelling of the file's go_package option that names the same Go package
+// ("path" -> "path;name" when the last path element is the package name, "path;name" -> "path" likewise), or ""
+// when there is none.
+func (f *File) AltGoPackage() string {
+	gp := f.GoPackage
+	if gp == "" {
+		return ""
+	}
+	if i := strings.Index(gp, ";"); i >= 0 {
+		if last := gp[:i][strings.LastIndex(gp[:i], "/")+1:]; last == gp[i+1:] {
+			return gp[:i]
+		}
+		return ""
+	}
+	last := gp[strings.LastIndex(gp, "/")+1:]
+	if last == "" || strings.ContainsAny(last, ".-") {
+		return ""
+	}
+	return gp + ";" + last
 }
 
 // DepName is the name of the imported file that holds the InDep declarations.
